@@ -1,4 +1,5 @@
 import ScVerif.C13.Order
+import ScVerif.C13.AsyncLemmas
 /-!
 # C13 — the in-process wrapper is indistinguishable from a real gRPC connection
 
@@ -18,9 +19,12 @@ metadata, received messages, results of SetHeader / SendHeader).
 The hypothesis of the property ("every send meets a ready receiver") is built into both runs: they
 are joint runs under the rendezvous discipline (`go`), which stop with `stuck` where a script leaves
 it; the equality therefore needs no side condition (it covers the partial transcript up to such a
-point as well). `C13_wf_completes` says which scripts run to completion. -/
-theorem C13_transcript_eq (shape : Shape) (out : MD) (ss : List SOp) (fin : Fin) (cs : List COp) :
-    Wrap.run shape out ss fin cs = GrpcRef.run shape out ss fin cs := by
+point as well). `C13_no_goroutine_left` says which scripts run to completion. `reuse` = both sides reuse one message
+object for all their sends and overwrite it as soon as SendMsg has returned: unobservable, as over
+gRPC, which has serialised the message by then. -/
+theorem C13_transcript_eq (shape : Shape) (out : MD) (ss : List SOp) (fin : Fin) (cs : List COp)
+    (reuse : Bool) :
+    Wrap.run shape out ss fin cs reuse = GrpcRef.run shape out ss fin cs reuse := by
   have hopen : Wrap.open shape = .ok := by cases shape <;> decide
   have hclone : cloneMD out = out := by
     unfold cloneMD
@@ -29,13 +33,13 @@ theorem C13_transcript_eq (shape : Shape) (out : MD) (ss : List SOp) (fin : Fin)
     | cons kv t ih => simp [List.map]
   unfold Wrap.run Wrap.runCfg GrpcRef.run
   simp only [hopen, hclone]
-  exact congrArg _ (go_eq fin {} false (.running ss) (clientOps shape cs) {} rel_init)
+  exact congrArg _ (go_eq fin reuse {} false (.running ss) (clientOps shape cs) {} rel_init Wrap.heapInv_init)
 
 /-- The statement of the design document, with the hypothesis spelled out. -/
 theorem C13_transcript_eq_wf (shape : Shape) (out : MD) (ss : List SOp) (fin : Fin) (cs : List COp)
-    (_h : WFScripts shape ss fin cs = true) :
-    Wrap.run shape out ss fin cs = GrpcRef.run shape out ss fin cs :=
-  C13_transcript_eq shape out ss fin cs
+    (reuse : Bool) (_h : WFScripts shape ss fin cs = true) :
+    Wrap.run shape out ss fin cs reuse = GrpcRef.run shape out ss fin cs reuse :=
+  C13_transcript_eq shape out ss fin cs reuse
 
 /-- The hypothesis is inhabited: a bidirectional call with headers, a trailer and an error status. -/
 example : WFScripts .bidi [.setHeader [("a", "1")], .recv, .send 1, .setTrailer [("b", "2")]] (.status 5 "e0")
@@ -49,15 +53,16 @@ no client op blocks forever, `Header()` included) and the handler goroutine — 
 wrapper spawns — has returned or was released by the cancellation when the client script ends
 (`left` does not occur). By `C13_transcript_eq` the same holds for the reference. -/
 theorem C13_no_goroutine_left (shape : Shape) (out : MD) (ss : List SOp) (fin : Fin) (cs : List COp)
-    (h : WFScripts shape ss fin cs = true) :
-    Ev.stuck ∉ (Wrap.run shape out ss fin cs).client ∧ SEv.left ∉ (Wrap.run shape out ss fin cs).server := by
+    (reuse : Bool) (h : WFScripts shape ss fin cs = true) :
+    Ev.stuck ∉ (Wrap.run shape out ss fin cs reuse).client ∧
+    SEv.left ∉ (Wrap.run shape out ss fin cs reuse).server := by
   have hopen : Wrap.open shape = .ok := by cases shape <;> decide
   have hs : sync false false false (.running ss) (clientOps shape cs) = true := by
     simp only [WFScripts, Bool.and_eq_true] at h
     exact h.2
-  have hc := go_complete Cfg.current fin false false false (.running ss) (clientOps shape cs) {} hs
+  have hc := go_complete Cfg.current fin reuse false false false (.running ss) (clientOps shape cs) {} hs
     (by intro hh; cases hh)
-  have hc' : (Wrap.run shape out ss fin cs).complete = true := by
+  have hc' : (Wrap.run shape out ss fin cs reuse).complete = true := by
     unfold Wrap.run Wrap.runCfg
     simp only [hopen]
     rw [complete_sev _ _ (by simp)]
@@ -74,14 +79,139 @@ example : SEv.left ∈ (Wrap.run .sstream [] [.recv, .send 1] .ok [.send 0, .clo
 /-- **Messages in order.** In every run (complete or not) the messages the client received are a prefix
 of the messages the handler script sends, and the messages the handler received are a prefix of the
 messages the client script sends: nothing is lost in the middle, duplicated or reordered. -/
-theorem C13_messages_in_order (shape : Shape) (out : MD) (ss : List SOp) (fin : Fin) (cs : List COp) :
-    (Wrap.run shape out ss fin cs).clientMsgs <+: ss.filterMap SOp.send? ∧
-    (Wrap.run shape out ss fin cs).serverMsgs <+: (clientOps shape cs).filterMap COp.send? := by
-  have hopen : Wrap.open shape = .ok := by cases shape <;> decide
-  have h := go_msgs Cfg.current fin {} false (.running ss) (clientOps shape cs)
-  unfold Wrap.run Wrap.runCfg
-  simp only [hopen]
+theorem C13_messages_in_order (shape : Shape) (out : MD) (ss : List SOp) (fin : Fin) (cs : List COp)
+    (reuse : Bool) :
+    (Wrap.run shape out ss fin cs reuse).clientMsgs <+: ss.filterMap SOp.send? ∧
+    (Wrap.run shape out ss fin cs reuse).serverMsgs <+: (clientOps shape cs).filterMap COp.send? := by
+  rw [C13_transcript_eq]
+  have h := go_msgs fin reuse {} false (.running ss) (clientOps shape cs)
+  unfold GrpcRef.run
   simpa [Transcript.clientMsgs, Transcript.serverMsgs, sev, Srv.ops, List.filterMap_cons, SEv.got?] using h
+
+/-! ### Messages are copied across the boundary -/
+
+/-- States of the wrapper's message objects reachable by any sequence of messages in either direction
+(with or without object reuse), header / trailer / close / abort calls, and **arbitrary writes by either
+side into objects it holds, at any time**. -/
+inductive Wrap.Reach : Wrap.State → Prop
+  | init : Wrap.Reach {}
+  | xfer {w} (d : Dir) (m : Nat) (reuse : Bool) : Wrap.Reach w → Wrap.Reach (Wrap.xfer Cfg.current w d m reuse).1
+  | pokeClient {w} (r v : Nat) : Wrap.Reach w → r ∈ w.cOwn → Wrap.Reach (Wrap.poke w r v)
+  | pokeServer {w} (r v : Nat) : Wrap.Reach w → r ∈ w.sOwn → Wrap.Reach (Wrap.poke w r v)
+  | setHeader {w} (md : MD) : Wrap.Reach w → Wrap.Reach (Wrap.setHeader Cfg.current w md).1
+  | sendHeader {w} (md : MD) : Wrap.Reach w → Wrap.Reach (Wrap.sendHeader w md).1
+  | setTrailer {w} (md : MD) : Wrap.Reach w → Wrap.Reach (Wrap.setTrailer w md)
+
+theorem Wrap.reach_inv {w : Wrap.State} (h : Wrap.Reach w) : Wrap.HeapInv w := by
+  induction h with
+  | init => exact Wrap.heapInv_init
+  | xfer d m reuse _ ih => exact Wrap.xfer_heapInv ih Cfg.current rfl d m reuse
+  | pokeClient r v _ _ ih => exact Wrap.heapInv_poke ih r v
+  | pokeServer r v _ _ ih => exact Wrap.heapInv_poke ih r v
+  | setHeader md _ ih => exact Wrap.heapInv_setHeader ih _ md
+  | sendHeader md _ ih => exact Wrap.heapInv_sendHeader ih md
+  | setTrailer md _ ih => exact Wrap.heapInv_setTrailer ih md
+
+/-- **Copy across the boundary.** In every reachable state no message object held by the client code is
+held by the handler, and a write by either side into an object it holds leaves every object the other
+side holds unchanged: neither side can alter the other's copy, whenever it writes. -/
+theorem C13_copy (w : Wrap.State) (h : Wrap.Reach w) :
+    (∀ r, r ∈ w.cOwn → r ∉ w.sOwn) ∧
+    (∀ r v s, r ∈ w.cOwn → s ∈ w.sOwn → (Wrap.poke w r v).heap.get s = w.heap.get s) ∧
+    (∀ r v s, r ∈ w.sOwn → s ∈ w.cOwn → (Wrap.poke w r v).heap.get s = w.heap.get s) := by
+  have hi := Wrap.reach_inv h
+  exact ⟨hi.disj, fun r v s hr hs => Wrap.poke_frame hi r v s (Or.inl ⟨hr, hs⟩),
+    fun r v s hr hs => Wrap.poke_frame hi r v s (Or.inr ⟨hr, hs⟩)⟩
+
+/-- **What travels is a snapshot.** `SendMsg` hands over an object that neither side holds and that is not
+the sender's, holding the sender's payload; so the receiver reads exactly the payload the sender wrote
+before `SendMsg`, whatever the sender writes into its object once `SendMsg` has returned (`reuse`). -/
+theorem C13_copy_payload (w : Wrap.State) (h : Wrap.Reach w) (d : Dir) (m : Nat) (reuse : Bool) :
+    (Wrap.xfer Cfg.current w d m reuse).2 = m :=
+  Wrap.xfer_payload (Wrap.reach_inv h) Cfg.current rfl d m reuse
+
+/-- The defect repaired by be22473, on the legacy model: the sender's own object travelled, and a sender
+overwriting it right after `SendMsg` changed what the receiver read (99 instead of 4). -/
+theorem C13_legacy_sender_alters_received :
+    (Wrap.xfer Cfg.legacy {} .s2c 4 true).2 = Wrap.poison ∧ (Wrap.xfer Cfg.legacy {} .s2c 4 true).2 ≠ 4 := by
+  decide
+
+/-! ### Cancellation and deadline at arbitrary positions -/
+
+/-- **Outcomes after the client's own abort, at any position.** Let the client script cancel (or let its
+deadline pass) anywhere: before, between or after any of its ops, with a message pending, with the
+handler between a send and its return, or already returned. `Wrap.asyncRuns` lists every client
+transcript the wrapper can then produce (the handler unwinds on its own; how far it has got when the
+client looks is not determined). In each of them the part up to the abort is the rendezvous run, and
+every later op yields only: the next message, the cancellation class (`aborted`, or the context's
+status coming back from the handler), the status the handler script returns, header / trailer
+metadata. -/
+theorem C13_async_outcomes (shape : Shape) (ss : List SOp) (fin : Fin) (cs : List COp) (reuse : Bool)
+    (pre post : List COp) (a : Abort) (h : splitAbort (clientOps shape cs) = (pre, some (a, post))) :
+    ∀ t ∈ Wrap.asyncRuns Cfg.current shape ss fin cs reuse,
+      t = (go (Wrap.impl Cfg.current) fin reuse {} false (.running ss) pre).client ∨
+      ∃ evs, t = (go (Wrap.impl Cfg.current) fin reuse {} false (.running ss) pre).client ++ .did a :: evs ∧
+        ∀ e ∈ evs, AllowedEv fin (cancelFin a) a e := by
+  intro t ht
+  unfold Wrap.asyncRuns asyncRuns at ht
+  rw [h] at ht
+  simp only at ht
+  cases hst : stateAt (Wrap.impl Cfg.current) fin reuse {} false (.running ss) pre with
+  | none => rw [hst] at ht; simp at ht; exact Or.inl ht
+  | some r =>
+    obtain ⟨s, cc, srv⟩ := r
+    rw [hst] at ht
+    simp only [List.mem_map] at ht
+    obtain ⟨evs, hevs, rfl⟩ := ht
+    refine Or.inr ⟨evs, rfl, ?_⟩
+    have hinv := stateAt_inv Cfg.current fin (cancelFin a) reuse {} false (.running ss) pre
+      (by show ({} : Wrap.State).closed = none; rfl) _ hst
+    have hop : Wrap.opErr Cfg.current a = cancelFin a := by simp [Wrap.opErr, Cfg.current]
+    rw [hop] at hevs
+    have hinv' : AInv fin (cancelFin a) ((Wrap.impl Cfg.current).abort s a) srv := by
+      cases srv <;> exact hinv
+    exact after_allowed Cfg.current fin (cancelFin a) a reuse cc post false _ srv hinv' evs hevs
+
+/-- **Never a clean end after one's own cancel** (unless the handler itself returned OK): if the handler
+script returns an error, no op after the client's abort reports io.EOF / OK. -/
+theorem C13_async_no_clean_end (shape : Shape) (ss : List SOp) (fin : Fin) (cs : List COp) (reuse : Bool)
+    (pre post : List COp) (a : Abort) (h : splitAbort (clientOps shape cs) = (pre, some (a, post)))
+    (hfin : Wrap.canon fin ≠ .fin 0 "") :
+    ∀ t ∈ Wrap.asyncRuns Cfg.current shape ss fin cs reuse, ∀ evs,
+      t = (go (Wrap.impl Cfg.current) fin reuse {} false (.running ss) pre).client ++ .did a :: evs →
+      Ev.fin 0 "" ∉ evs := by
+  intro t ht evs hte hmem
+  rcases C13_async_outcomes shape ss fin cs reuse pre post a h t ht with h1 | ⟨evs', h2, hall⟩
+  · rw [h1] at hte
+    have := congrArg List.length hte
+    simp at this
+  · rw [hte] at h2
+    have : evs = evs' := by simpa using List.append_cancel_left h2
+    subst this
+    rcases hall _ hmem with h | ⟨m, h⟩ | h | h | ⟨m, h⟩ | ⟨m, h⟩ | h
+    · cases h
+    · cases h
+    · exact hfin h.symm
+    · cases a <;> simp [cancelFin, Wrap.canon] at h
+    · cases h
+    · cases h
+    · cases h
+
+/-- **After the abort the handler always returns** (no goroutine left at any abort position): every way
+the handler can unwind ends with the handler returned. -/
+theorem C13_async_handler_returns (c : Cfg) (fin opErr : Fin) (cc : Bool) (ops : List SOp) (w : Wrap.State) :
+    ((unwind (Wrap.impl c) fin opErr cc w ops).getLast?).map (·.2) = some .done :=
+  unwind_last_done (Wrap.impl c) fin opErr cc ops w
+
+/-- The defect repaired by 3d4f9fa, on the legacy model: the handler's RecvMsg returned io.EOF after the
+client's cancel, a handler returning that error closed the stream with it, and the client's RecvMsg
+after its own cancel could report a clean end although the handler script returns FailedPrecondition. -/
+theorem C13_legacy_cancel_reads_clean_end :
+    [Ev.sent, .did .cancel, .fin 0 ""] ∈
+      Wrap.asyncRuns Cfg.legacy .bidi [.recv, .recv] (.status 9 "e0") [.send 1, .abort .cancel, .recv] false := by
+  simp [Wrap.asyncRuns, asyncRuns, splitAbort, clientOps, stateAt, go, after, futures, unwind, observe,
+    Wrap.impl, Wrap.opErr, Cfg.legacy, Wrap.terminal, Wrap.close, Wrap.abort, Wrap.canon, cev, sev, leftT,
+    Wrap.xfer_closed, Wrap.xfer_ctxErr]
 
 /-- **Unknown method.** A method name that is neither a unary method nor a stream of the service gives
 Unimplemented, from `NewStream` and from `Invoke`, for any service description. -/
@@ -135,21 +265,23 @@ theorem C13_legacy_staged_header_lost :
       List.map]
     simp only [go, Wrap.impl, GrpcRef.impl, Wrap.setHeader, Cfg.legacy, sevIf, Wrap.close, Wrap.terminal,
       Wrap.header, Wrap.trailer, Wrap.canon, cev, sev, endT, GrpcRef.setHeader, GrpcRef.headerWritten,
-      GrpcRef.writeStatus, GrpcRef.header, GrpcRef.terminal, GrpcRef.trailer, GrpcRef.wireStatus]
+      GrpcRef.writeStatus, GrpcRef.header, GrpcRef.terminal, GrpcRef.trailer, GrpcRef.wireStatus,
+      Wrap.xfer_header, Wrap.xfer_headerC, Wrap.xfer_trailer, Wrap.xfer_closed, Wrap.xfer_ctxErr]
     simp
 
 /-- … and SetHeader after the headers were sent is accepted and changes what the client reads. -/
 theorem C13_legacy_late_setheader_visible :
     ∃ shape out ss fin cs, WFScripts shape ss fin cs = true ∧
       Wrap.runCfg Cfg.legacy shape out ss fin cs ≠ GrpcRef.run shape out ss fin cs := by
-  refine ⟨.bidi, [], [.sendHeader [("a", "1")], .recv, .setHeader [("b", "1")], .send 1], .ok,
-    [.header, .send 1, .recv, .header, .recv, .header, .trailer], ?_, ?_⟩
+  refine ⟨.bidi, [], [.sendHeader [("a", "1")], .setHeader [("b", "1")]], .ok,
+    [.header, .recv, .trailer], ?_, ?_⟩
   · simp [WFScripts, conforms, clientOps, sync]
   · simp only [Wrap.runCfg, GrpcRef.run, C13_testapi_opens, clientOps, cloneMD, List.map]
     simp only [go, Wrap.impl, GrpcRef.impl, Wrap.setHeader, Wrap.sendHeader, Wrap.sendHeaderIfNeeded,
       Cfg.legacy, sevIf, Wrap.close, Wrap.terminal, Wrap.header, Wrap.trailer, Wrap.canon, cev, sev, endT,
       GrpcRef.setHeader, GrpcRef.sendHeader, GrpcRef.beforeData, GrpcRef.headerWritten,
-      GrpcRef.writeStatus, GrpcRef.header, GrpcRef.terminal, GrpcRef.trailer, GrpcRef.wireStatus]
+      GrpcRef.writeStatus, GrpcRef.header, GrpcRef.terminal, GrpcRef.trailer, GrpcRef.wireStatus,
+      Wrap.xfer_header, Wrap.xfer_headerC, Wrap.xfer_trailer, Wrap.xfer_closed, Wrap.xfer_ctxErr]
     simp
 
 end ScVerif.C13
